@@ -229,7 +229,7 @@ func VerifC19Phase() {
 	steps := zzverif.Param("events", 4)
 	for i := 0; i < steps; i++ {
 		news0, closes0, _ := tr.count("a")
-		ev := zzverif.Choice("event", 6)
+		ev := zzverif.Choice("event", 7)
 		switch ev {
 		case 0: // probe succeeded
 			if !checked {
@@ -264,6 +264,19 @@ func VerifC19Phase() {
 			}
 			pw.Stop()
 			stopped = true
+		case 6: // a reload stops the proxy while its status worker is waking up
+			if stopped {
+				continue
+			}
+			adv := zzverif.Int64("advance")
+			zzverif.Assume(adv >= 0 && adv <= int64(100*time.Second))
+			c19p.now += adv
+			select {
+			case c19p.tick <- time.Time{}:
+			default:
+			}
+			go pw.Stop()
+			stopped = true
 		}
 		zzverif.Quiesce()
 		st := pw.GetStatus()
@@ -274,8 +287,14 @@ func VerifC19Phase() {
 		}
 		if stopped {
 			zzverif.Assert(st.Phase == ProxyPhaseClosed, "C19.phase.stopped-entry-stays-closed")
-			zzverif.Assert(news == news0, "C19.phase.stopped-entry-sends-no-further-registration")
+			if ev != 6 {
+				zzverif.Assert(news == news0, "C19.phase.stopped-entry-sends-no-further-registration")
+			}
+			// whatever raced with the stop, the last thing the server hears about this proxy is its close
 			zzverif.Assert(last == "close", "C19.phase.stopped-entry-is-closed-at-the-server")
+			if ev == 6 {
+				zzverif.Reach("C19.phase.stop-raced-with-worker")
+			}
 			zzverif.Reach("C19.phase.stopped")
 		}
 		if !stopped && checked && !healthy {
